@@ -4,14 +4,16 @@ import json, os
 V = os.path.dirname(os.path.dirname(os.path.abspath(__file__)))
 checks = json.load(open(os.path.join(V, "checks.json")))
 meta = json.load(open(os.path.join(V, "tools", "manifest_meta.json")))
+import subprocess
+HOOK_COMMIT = "5e734db86fb2c1c452dc85475e7f12fe8941eb7e"
 m = {
  "version": 1,
  "setup_cmd": "cd /verif/engine && GOFLAGS=-mod=mod GOPROXY=off GOSUMDB=off GOTOOLCHAIN=local PATH=/opt/veriftools/go1.26.8/bin:$PATH go build -o /verif/bin/vengine .",
  "hooks": {
   "guard": "verif",
-  "enable": "none needed: harnesses are injected into the package under test with go/packages Overlay (symbolic run) and go test -overlay (native replay); /repo carries no hook code",
+  "enable": "harnesses are injected into the package under test with go/packages Overlay (symbolic run) and go test -overlay (native replay); the only hook in /repo is the crash point in front of every durable write of the node databases (storage/mkvs/db/api.VerifCrashPoint, an empty function unless built with -tags verif); the C07 check's native replays run go test -tags verif, the symbolic run does not need the tag (the crash happens in the harness model of Badger)",
   "baseline_off_cmd": "for m in $(cat /w/out/gomods.txt); do MF=$(cd /repo/$m && . /w/out/goenv.sh && gomodflag); (cd /repo/$m && go test $MF -json -vet=off -count=1 -timeout 25m ./...); done",
-  "source_commits": [],
+  "source_commits": [HOOK_COMMIT],
   "add_only": True,
  },
  "engines": [{"name": "vengine", "path": "/verif/engine", "serves_properties": sorted(checks),
